@@ -353,4 +353,246 @@ Section RefineTxn.
       repeat split; auto. eexists. split; [reflexivity|]. cbn [t_modified t_error]. auto.
   Qed.
 
+  (* ---------------------------------------------------------------- *)
+  (* small facts *)
+
+  Lemma len_nil {A} : len (@nil A) = 0.
+  Proof. reflexivity. Qed.
+
+  Lemma len_cons_pos {A} (x : A) t : (0 <? len (x :: t)) = true.
+  Proof. apply Z.ltb_lt. unfold len. cbn [List.length]. lia. Qed.
+
+  Lemma changed_mod_nil m e : changed_mod (mkT m [] None e) = false.
+  Proof. reflexivity. Qed.
+
+  Lemma changed_mod_cons m x t u e : changed_mod (mkT m (x :: t) u e) = true.
+  Proof. unfold changed_mod. cbn [t_modified]. rewrite len_cons_pos. reflexivity. Qed.
+
+  Lemma changed_mod_ups m l sd e : changed_mod (mkT m l (Some sd) e) = true.
+  Proof. unfold changed_mod. cbn [t_upserted]. apply orb_true_r. Qed.
+
+  Lemma s_update_no_upsert sc q u sort skip limit afs sc' sr :
+    s_update matchf applyf now sc q u sort skip limit afs = inl (sc', sr) -> sr_upserted sr = None.
+  Proof.
+    rewrite (s_update_eq matchf applyf).
+    destruct (s_find matchf (sc_docs sc) q sort skip limit) as [[|x t]| | | |]; try discriminate.
+    - intro H. inversion H. reflexivity.
+    - unfold s_update_with.
+      destruct (s_apply_all applyf now (x :: t) q u afs) as [newl| | | |]; try discriminate.
+      destruct (negb (s_ids_unchanged (x :: t) newl)); try discriminate.
+      destruct (removable_all matchf (sc_defs sc) (x :: t)); try discriminate.
+      destruct (admit_all matchf (sc_defs sc) (without (sc_docs sc) (map fst (x :: t))) newl);
+        try discriminate.
+      intro H. inversion H. reflexivity.
+  Qed.
+
+  Lemma s_replace_no_upsert sc q repl sort sc' sr :
+    s_replace matchf sc q repl sort = inl (sc', sr) -> sr_upserted sr = None.
+  Proof.
+    rewrite (s_replace_eq matchf).
+    destruct (s_find matchf (sc_docs sc) q sort 0 1) as [[|[i old] t]| | | |]; try discriminate.
+    - intro H. inversion H. reflexivity.
+    - unfold s_replace_with.
+      destruct (replace_prepared old repl) as [repl'| | | |]; try discriminate.
+      destruct (removable matchf (sc_defs sc) old); try discriminate.
+      destruct (admits matchf (sc_defs sc) (without (sc_docs sc) [i]) repl'); try discriminate.
+      intro H. inversion H. reflexivity.
+  Qed.
+
+  (* ---------------------------------------------------------------- *)
+  (* Delete *)
+
+  Definition del_rel (tr : tresult) (sr : sresult) : Prop := map snd (t_matched tr) = sr_matched sr.
+
+  Theorem txn_delete_refines c g h q sort skip limit :
+    ns_ok (g_did g) (cat_ns c) ->
+    txn_rel del_rel g (txn_delete matchf c g h q sort skip limit)
+            (s_delete_call matchf (abs_cat c g) h q sort skip limit).
+  Proof.
+    intro Hok. unfold txn_delete, s_delete_call.
+    destruct (guard_write h) as [e|] eqn:Hg.
+    - destruct (guard_some h e Hg) as [-> Hv]. rewrite Hv. cbn [negb].
+      unfold txn_rel, abs_cat. cbn [ss_colls ss_oid sum_rel]. repeat split; auto. lia.
+    - pose proof (proj1 (guard_valid h) Hg) as Hv. rewrite Hv. cbn [negb].
+      pose proof (valid_user h Hv) as Hu.
+      unfold abs_cat at 1. cbn [ss_colls]. rewrite (sc_get_abs _ _ Hu).
+      destruct (ns_get (cat_ns c) h) as [n|] eqn:Hn; cbn [option_map].
+      + destruct (ns_ok_get matchf _ _ _ _ Hok Hu Hn) as [Hinv [Hid Hlt]].
+        unfold t_delete, open_w, ns_or_new. rewrite Hn. cbn [w_ns w_gen w_oplog w_clock].
+        pose proof (sim_delete matchf n q sort skip limit Hinv) as Hsim.
+        destruct (coll_delete matchf n q sort skip limit) as [ns' [r|e]] eqn:Hcd;
+          destruct (s_delete matchf (abs_coll n) q sort skip limit) as [[sc' sr]|e'];
+          cbn [out_rel] in Hsim; try contradiction.
+        * destruct Hsim as [Habs [Hm _]].
+          destruct (coll_delete_inv matchf _ _ _ _ _ _ _ _ Hinv Hid Hlt Hcd) as [Hinv' [Hid' Hlt']].
+          match goal with |- context [append_all ?w1 h ?op ?l ?chs] =>
+            destruct (append_all_facts h op l w1 chs) as [F1 [F2 F3]];
+            set (wa := append_all w1 h op l chs) in * end.
+          cbn [w_ns w_gen g_oid g_did] in F1, F2, F3. clearbody wa.
+          unfold finish. cbn [t_matched].
+          destruct (r_matched r) as [|m0 mr] eqn:Hrm.
+          -- rewrite <- Hm. cbn [map]. change (0 <? len (@nil sdoc)) with false. cbv iota.
+             unfold txn_rel, abs_cat. cbn [ss_colls ss_oid sum_rel]. unfold del_rel. cbn [t_matched].
+             repeat split; auto. eapply ns_ok_mono; eauto.
+          -- rewrite <- Hm. cbn [map]. rewrite len_cons_pos.
+             unfold txn_rel, abs_cat. cbn [ss_colls ss_oid sum_rel]. unfold del_rel. cbn [t_matched].
+             split; [|split; [|split; [|split]]]; auto.
+             ++ rewrite (close_w_abs c h wa Hu), F1, Habs. reflexivity.
+             ++ apply close_w_ok; [eapply ns_ok_mono; eauto|].
+                rewrite F1. apply (good_mono matchf (g_did g)); auto. split; [|split]; auto.
+        * subst e'. unfold finish, gen_after_fail, txn_rel, abs_cat.
+          cbn [w_gen ss_colls ss_oid sum_rel]. repeat split; auto. lia.
+      + unfold txn_rel, abs_cat. cbn [ss_colls ss_oid sum_rel]. repeat split; auto. lia.
+  Qed.
+
+  (* ---------------------------------------------------------------- *)
+  (* Update (with the upsert fall-back) *)
+
+  Definition s_upd_core (s : sstate) (h : handle) (q u : doc) (sort : option doc)
+             (skip limit : Z) (upsert : bool) (afs : list doc) : sstate * (sresult + ekind) :=
+    let c := coll_or_new s h in
+    match s_update matchf applyf now c q u sort skip limit afs with
+    | inr e => (s, inr e)
+    | inl (c', sr) =>
+        match sr_matched sr, upsert with
+        | [], true =>
+            let used := if upsert_generates applyf extractf q None (Some u) afs now then 1 else 0 in
+            match s_upsert matchf applyf extractf now c' q None (Some u) afs (gen_oid (ss_oid s)) with
+            | inl (c'', sr') => (mkS (sc_set (ss_colls s) h c'') (ss_oid s + used), inl sr')
+            | inr e => (mkS (ss_colls s) (ss_oid s + used), inr e)
+            end
+        | _, _ =>
+            match sr_modified sr with
+            | [] => (s, inl sr)
+            | _ => (mkS (sc_set (ss_colls s) h c') (ss_oid s), inl sr)
+            end
+        end
+    end.
+
+  Lemma s_update_or_upsert_eq s h q u sort skip limit upsert afs :
+    s_update_or_upsert matchf applyf extractf now s h q u sort skip limit upsert afs =
+    if negb (s_valid h) then (s, inr EErr)
+    else match sc_get (ss_colls s) h with
+         | None => if upsert then s_upd_core s h q u sort skip limit upsert afs else (s, inl sr_empty)
+         | Some _ => s_upd_core s h q u sort skip limit upsert afs
+         end.
+  Proof.
+    unfold s_update_or_upsert, s_upd_core. destruct (negb (s_valid h)); [reflexivity|].
+    destruct (sc_get (ss_colls s) h); destruct upsert; reflexivity.
+  Qed.
+
+  Lemma upd_core_sim c g h q u sort skip limit upsert afs :
+    ns_ok (g_did g) (cat_ns c) -> user_ns h = true ->
+    txn_rel tres_rel g
+      (finish c g h changed_mod
+         (t_update matchf applyf extractf (open_w c g h) h q u sort upsert skip limit afs now))
+      (s_upd_core (abs_cat c g) h q u sort skip limit upsert afs).
+  Proof.
+    intros Hok Hu. unfold s_upd_core, t_update, abs_cat.
+    rewrite (coll_or_new_abs c (g_oid g) h Hu).
+    cbn [open_w w_ns w_gen w_oplog w_clock ss_colls ss_oid].
+    destruct (ns_or_new_good matchf _ c h Hok Hu) as [Hinv [Hid Hlt]].
+    set (n0 := ns_or_new c h) in *.
+    pose proof (sim_update matchf applyf n0 (g_did g) q u sort skip limit afs now Hinv Hlt) as Hsim.
+    pose proof (s_update_no_upsert (abs_coll n0) q u sort skip limit afs) as Hnoup.
+    destruct (coll_update matchf applyf n0 (g_did g) q u sort skip limit afs now) as [ns' [r|e]] eqn:Hcu;
+      destruct (s_update matchf applyf now (abs_coll n0) q u sort skip limit afs) as [[sc' sr]|e'];
+      cbn [out_rel] in Hsim; try contradiction.
+    - destruct Hsim as [Habs [Hm [Hmd Hup]]]. specialize (Hnoup sc' sr eq_refl).
+      destruct (coll_update_inv matchf applyf _ _ _ _ _ _ _ _ _ _ _ Hinv Hid Hlt Hcu)
+        as [Hinv' [Hid' Hlt']].
+      destruct (r_matched r) as [|m0 mr] eqn:Hrm.
+      + (* nothing matched *)
+        rewrite <- Hm. cbn [map].
+        change (len (@nil sdoc)) with 0. rewrite Z.add_0_r. cbn [g_did g_oid].
+        cbn [List.length] in Hlt'. change (Z.of_nat 0) with 0 in Hlt'. rewrite Z.add_0_r in Hlt'.
+        assert (Hr : r = empty_result).
+        { apply (coll_update_inl matchf applyf) in Hcu.
+          destruct Hcu as [[_ [_ Hr]]|[matched [newl [chs [ixs [ixs' [_ [Hne [_ [_ [_ [_ [_ Hmm]]]]]]]]]]]]].
+          - exact Hr.
+          - exfalso. apply Hne. rewrite <- Hmm. exact Hrm. }
+        destruct upsert.
+        * (* upsert *)
+          subst sc'.
+          pose proof (sim_upsert matchf applyf extractf ns' (g_did g) q None (Some u) afs
+                       (gen_oid (g_oid g)) now Hinv' Hlt') as Hs2.
+          destruct (coll_upsert matchf applyf extractf ns' (g_did g) q None (Some u) afs
+                      (gen_oid (g_oid g)) now) as [ns'' [r2|e2]] eqn:Hcup;
+            destruct (s_upsert matchf applyf extractf now (abs_coll ns') q None (Some u) afs
+                        (gen_oid (g_oid g))) as [[sc'' sr']|e2'];
+            cbn [out_rel] in Hs2; try contradiction.
+          -- destruct Hs2 as [Habs2 Hrel2].
+             destruct (coll_upsert_inv matchf applyf extractf _ _ _ _ _ _ _ _ _ _ Hinv' Hid' Hlt' Hcup)
+               as [Hinv2 [Hid2 Hlt2]].
+             destruct (coll_upsert_docs matchf applyf extractf _ _ _ _ _ _ _ _ _ _ Hcup)
+               as [d' [_ [_ Hr2]]]. subst r2. cbn [r_upserted].
+             match goal with |- context [append_all ?w1 h ?op ?l ?chs] =>
+               destruct (append_all_facts h op l w1 chs) as [F1 [F2 F3]];
+               set (wa := append_all w1 h op l chs) in * end.
+             cbn [w_ns w_gen g_oid g_did] in F1, F2, F3. clearbody wa.
+             unfold finish. rewrite changed_mod_ups.
+             unfold txn_rel. cbn [ss_colls ss_oid sum_rel].
+             split; [|split; [|split; [|split]]].
+             ++ rewrite (close_w_abs c h wa Hu), F1, Habs2. reflexivity.
+             ++ rewrite F2. reflexivity.
+             ++ destruct Hrel2 as [R1 [R2 R3]]. split; [|split]; assumption.
+             ++ apply close_w_ok; [eapply ns_ok_mono; [exact Hok|lia]|].
+                rewrite F1. apply (good_mono matchf (g_did g + 1)); [|lia]. split; [|split]; auto.
+             ++ lia.
+          -- subst e2'. unfold finish, gen_after_fail, txn_rel.
+             cbn [w_gen ss_colls ss_oid sum_rel g_did g_oid]. repeat split; auto. lia.
+        * (* no upsert: nothing happens *)
+          subst r. cbn [r_modified r_upserted map option_map] in *. rewrite <- Hmd.
+          unfold finish. rewrite changed_mod_nil.
+          unfold txn_rel. cbn [w_gen ss_colls ss_oid sum_rel g_did g_oid].
+          repeat split; auto. lia.
+      + (* something matched *)
+        rewrite <- Hm. cbn [map].
+        match goal with |- context [append_all ?w1 h ?op ?l ?chs] =>
+          destruct (append_all_facts h op l w1 chs) as [F1 [F2 F3]];
+          set (wa := append_all w1 h op l chs) in * end.
+        cbn [w_ns w_gen g_oid g_did] in F1, F2, F3.
+        assert (Htr : tres_rel (mkT (m0 :: mr) (r_modified r) None None) sr).
+        { split; [|split]; cbn [t_matched t_modified t_upserted option_map]; auto. }
+        unfold finish.
+        destruct (r_modified r) as [|x xs] eqn:Hrmod.
+        * rewrite changed_mod_nil. rewrite <- Hmd. cbn [map].
+          unfold wa. cbn [append_all w_gen].
+          unfold txn_rel. cbn [ss_colls ss_oid sum_rel g_did g_oid].
+          split; [|split; [|split; [|split]]]; auto.
+          -- eapply ns_ok_mono; [exact Hok|]. unfold len. lia.
+          -- unfold len. lia.
+        * rewrite changed_mod_cons. rewrite <- Hmd. cbn [map]. clearbody wa.
+          unfold txn_rel. cbn [ss_colls ss_oid sum_rel].
+          split; [|split; [|split; [|split]]]; auto.
+          -- rewrite (close_w_abs c h wa Hu), F1, Habs. reflexivity.
+          -- apply close_w_ok; [eapply ns_ok_mono; [exact Hok|unfold len in *; lia]|].
+             rewrite F1.
+             apply (good_mono matchf (g_did g + Z.of_nat (List.length (m0 :: mr)))); [|unfold len in *; lia].
+             split; [|split]; auto.
+          -- unfold len in *. lia.
+    - subst e'. unfold finish, gen_after_fail, txn_rel.
+      cbn [w_gen ss_colls ss_oid sum_rel]. repeat split; auto. lia.
+  Qed.
+
+  Theorem txn_update_refines c g h q sort u skip limit upsert afs :
+    ns_ok (g_did g) (cat_ns c) ->
+    txn_rel tres_rel g (txn_update matchf applyf extractf c g h q sort u skip limit upsert afs now)
+            (s_update_or_upsert matchf applyf extractf now (abs_cat c g) h q u sort skip limit upsert afs).
+  Proof.
+    intro Hok. unfold txn_update. rewrite s_update_or_upsert_eq.
+    destruct (guard_write h) as [e|] eqn:Hg.
+    - destruct (guard_some h e Hg) as [-> Hv]. rewrite Hv. cbn [negb].
+      unfold txn_rel, abs_cat. cbn [ss_colls ss_oid sum_rel]. repeat split; auto. lia.
+    - pose proof (proj1 (guard_valid h) Hg) as Hv. rewrite Hv. cbn [negb].
+      pose proof (valid_user h Hv) as Hu.
+      unfold abs_cat at 1. cbn [ss_colls]. rewrite (sc_get_abs _ _ Hu).
+      destruct (ns_get (cat_ns c) h) as [n|]; cbn [option_map].
+      + apply upd_core_sim; auto.
+      + destruct upsert.
+        * apply upd_core_sim; auto.
+        * unfold txn_rel, abs_cat. cbn [ss_colls ss_oid sum_rel].
+          repeat split; auto. lia.
+  Qed.
+
 End RefineTxn.
